@@ -10,10 +10,16 @@ Case line:  b <link> <vlan> <net> <transport> <payload>
              a/<hw.proto.op>/<sender hw>/<sender proto>/<target hw>/<target proto>     (.arp)
   transport  r/<ip number>  (write(ip_number, payload))  | u/<sp.dp>
              ts|th|te/<sp.dp.seq.ack.flags.win.urg.ck>/<options raw>[/<elements>]      (tcp()+setters+options_raw | tcp_header | tcp()+setters+options(elements))
-             i4|i6/ u.<type>.<code>.<bytes5to8> | q.<id>.<seq> | p.<id>.<seq> | Q.. | P.. (through icmpvN(type)) | x.<canonical header bytes>
+             i4|i6/ u.<type>.<code>.<bytes5to8> | q.<id>.<seq> | p.<id>.<seq> | Q.. | P.. (through icmpvN(type))
+             i4/ du.<code 0-15>.<next hop mtu> | rd.<code 0-3>.<gateway> | te.<code 0-1> | pp.<code 0-2>.<pointer> |
+                 tq|tp.<id>.<seq>.<originate>.<receive>.<transmit>                       (every Icmpv4Type variant, field by field)
+             i6/ du.<code 0-6> | tb.<mtu> | te.<code 0-1> | pp.<code 0-10>.<pointer> | rs | ra.<cur hop limit>.<M>.<O>.<lifetime> |
+                 ns | na.<R>.<S>.<O> | rd                                                (every Icmpv6Type variant)
   payload    - | <hex> | g<len>.<seed> | c<len>.<byte>
 The implementation prints  "<verdict> size=<size()> <bytes through write()> ; vec=.. slice=.. short=.. parse=.. crate=.."
-the runner                 "<verdict> size=<final_size> <bytes> | wire=<reference decoder> exp=<expected_x view (C10_parse_back) | - when the payload is not admitted>".
+the runner                 "<verdict> size=<final_size> <bytes> | wire=<reference decoder> exp=<expected_x view (C10_parse_back) | - when the payload is not admitted>
+                            upto=<ok|DIFF|-> ts=<ok|DIFF|-> dec=<ok|DIFF|->"  (instances of C10_parse_back_upto_transport, C10_timestamp_wrong_size_rejected,
+                            C10_icmp4/6_value_back evaluated on the extracted definitions; '-' = hypotheses not met).
 """
 import struct
 
@@ -35,8 +41,8 @@ RULE = ("every builder path (none|ethernet2|linux_sll) x (no|single|double VLAN,
 ASSUMPTIONS = [
     "little-endian host in the correspondence run (the theorems quantify over both endiannesses)",
     "64-bit usize: the sums of header lengths and payload.len() cannot wrap (payload.len() < 2^63)",
-    "the model covers ICMP kinds Unknown/EchoRequest/EchoReply; the other typed ICMPv4/ICMPv6 kinds are checked by the oracle only",
-    "C10_parse_back (wire reference decoder = expected_x) holds for every modelled configuration whose payload the message type admits (payload_admitted: not write(ip_number) with 1/6/17/58/51 or, over IPv6, an extension header number; not an ICMPv4 timestamp type with a payload other than 12 bytes); the chain part of C10_next_protocol_fields needs the same condition on write(ip_number) over IPv6",
+    "C10_parse_back (wire reference decoder = expected_x) holds for every configuration whose payload the message type admits (payload_admitted: not write(ip_number) with 1/6/17/58/51 or, over IPv6, an extension header number; not an ICMPv4 timestamp message -- typed TimestampRequest/Reply or raw type 13/14 code 0 -- whose total size is not 20 bytes); for the excluded cases C10_parse_back_upto_ip / _upto_transport / C10_timestamp_wrong_size_rejected state what the decoder returns and C10_parse_back_refuted_* that the full equation fails; the chain part of C10_next_protocol_fields needs chain_pre on write(ip_number) over IPv6",
+    "C10_icmp4_value_back / C10_icmp6_value_back use C08's wf_icmp4_type / wf_icmp6_type: a raw Unknown{type, code} that names a typed kind is read back as that kind (window theorems still apply)",
     "values satisfy the type invariants of the crate's structs (array sizes, bounded newtypes, option/ICV buffer lengths): cfg_wf in the theorems, enforced by construction in the harness",
 ]
 PROJECTION = "verdict (ok / error kind with its numbers), size(), every byte that reached the sink"
@@ -135,8 +141,9 @@ def tr_number(tr):
 
 
 def icmp_header(kind, v6):
-    """header bytes with a zero checksum"""
+    """header bytes with a zero checksum, from the RFC figures (RFC 792 / 1191 / 4443 / 4861)"""
     k = kind.split(".")
+    z4 = bytes(4)
     if k[0] == "u":
         return bytes([int(k[1]), int(k[2]), 0, 0]) + bytes.fromhex(k[3])
     if k[0] in ("q", "Q"):
@@ -147,6 +154,39 @@ def icmp_header(kind, v6):
         b = bytearray(bytes.fromhex(k[1]))
         b[2] = b[3] = 0
         return bytes(b)
+    if not v6:
+        if k[0] == "du":      # RFC 792 destination unreachable; code 4: RFC 1191 next-hop MTU in octets 6-7
+            code = int(k[1])
+            return bytes([3, code, 0, 0, 0, 0]) + (be16(int(k[2])) if code == 4 else bytes(2))
+        if k[0] == "rd":      # redirect: gateway internet address
+            return bytes([5, int(k[1]), 0, 0]) + bytes.fromhex(k[2])
+        if k[0] == "te":
+            return bytes([11, int(k[1]), 0, 0]) + z4
+        if k[0] == "pp":      # parameter problem: pointer in octet 4 (code 0 only)
+            code = int(k[1])
+            return bytes([12, code, 0, 0, int(k[2]) if code == 0 else 0, 0, 0, 0])
+        if k[0] in ("tq", "tp"):   # timestamp / timestamp reply: 20 octets
+            return (bytes([13 if k[0] == "tq" else 14, 0, 0, 0]) + be16(int(k[1])) + be16(int(k[2]))
+                    + be32(int(k[3])) + be32(int(k[4])) + be32(int(k[5])))
+    else:
+        if k[0] == "du":
+            return bytes([1, int(k[1]), 0, 0]) + z4
+        if k[0] == "tb":      # RFC 4443 3.2: MTU
+            return bytes([2, 0, 0, 0]) + be32(int(k[1]))
+        if k[0] == "te":
+            return bytes([3, int(k[1]), 0, 0]) + z4
+        if k[0] == "pp":      # RFC 4443 3.4: pointer
+            return bytes([4, int(k[1]), 0, 0]) + be32(int(k[2]))
+        if k[0] == "rs":
+            return bytes([133, 0, 0, 0]) + z4
+        if k[0] == "ra":      # RFC 4861 4.2: cur hop limit, M O flags, router lifetime
+            return bytes([134, 0, 0, 0, int(k[1]), (int(k[2]) << 7) | (int(k[3]) << 6)]) + be16(int(k[4]))
+        if k[0] == "ns":
+            return bytes([135, 0, 0, 0]) + z4
+        if k[0] == "na":      # RFC 4861 4.4: R S O flags
+            return bytes([136, 0, 0, 0, (int(k[1]) << 7) | (int(k[2]) << 6) | (int(k[3]) << 5), 0, 0, 0])
+        if k[0] == "rd":
+            return bytes([137, 0, 0, 0]) + z4
     raise Unsupported(kind)
 
 
@@ -382,13 +422,41 @@ LINKVLAN = [("n", "n"), ("s/3/6/0102030405060000", "n"), ("e/%s/%s" % (MAC1, MAC
             ("e/%s/%s" % (MAC1, MAC2), "1s/5"), ("e/%s/%s" % (MAC1, MAC2), "2s/4095/0"),
             ("e/%s/%s" % (MAC1, MAC2), "1h/7.1.4095.2048"), ("e/%s/%s" % (MAC1, MAC2), "2h/1.1.5.7/2.0.6.34525")]
 
-ICMP4_TYPED = ["0300000000000000", "0304000000000578", "030f000000000000", "050100000a000001", "0b00000000000000",
-               "0b01000000000000", "0c00070000000000", "0c01000000000000", "0c02000000000000",
-               "0d00000100020000000300000004000000050000", "0e00000100020000000300000004000000050000",
-               "0800000012345678", "0000000012345678", "2a00000001020304"]
-ICMP6_TYPED = ["0100000000000000", "0106000000000000", "0200000000000500", "0300000000000000", "0301000000000000",
-               "0400000000000028", "0402000000000001", "8000000012345678", "8100000012345678", "8500000000000000",
-               "8600000040c00708", "8700000000000000", "88000000e0000000", "8900000000000000", "c800000001020304"]
+U16B = (0, 1, 65535)
+U32B = (0, 1, 4294967295)
+
+
+def icmp4_kinds(r):
+    """every Icmpv4Type variant with boundary and random field values (tokens without the i4/ prefix)"""
+    ks = []
+    for code in range(16):
+        ks.append("du.%d.%d" % (code, r.choice(U16B + (576, r.below(65536))) if code == 4 else 0))
+    ks += ["du.4.0", "du.4.65535", "du.4.%d" % r.below(65536)]
+    for code in range(4):
+        ks.append("rd.%d.%s" % (code, r.choice(["00000000", "ffffffff", hx(r.bytes(4))])))
+    ks += ["te.0", "te.1", "pp.0.0", "pp.0.255", "pp.0.%d" % r.below(256), "pp.1.0", "pp.2.0"]
+    for tag in ("tq", "tp"):
+        ks.append("%s.0.0.0.0.0" % tag)
+        ks.append("%s.65535.65535.4294967295.4294967295.4294967295" % tag)
+        ks.append("%s.%d.%d.%d.%d.%d" % (tag, r.below(65536), r.below(65536), r.below(1 << 32), r.below(1 << 32), r.below(1 << 32)))
+    ks += ["Q.0.65535", "P.65535.0", "u.%d.%d.%s" % (r.choice([4, 15, 17, 42, 255]), r.below(256), hx(r.bytes(4)))]
+    return ks
+
+
+def icmp6_kinds(r):
+    """every Icmpv6Type variant with boundary and random field values"""
+    ks = ["du.%d" % c for c in range(7)]
+    ks += ["tb.0", "tb.1280", "tb.4294967295", "tb.%d" % r.below(1 << 32), "te.0", "te.1"]
+    for code in range(11):
+        ks.append("pp.%d.%d" % (code, r.choice(U32B + (r.below(1 << 32),))))
+    ks += ["pp.0.4294967295", "pp.10.0", "rs", "ns", "rd"]
+    for m in (0, 1):
+        for o in (0, 1):
+            ks.append("ra.%d.%d.%d.%d" % (r.choice([0, 255, r.below(256)]), m, o, r.choice(U16B + (r.below(65536),))))
+    for f in range(8):
+        ks.append("na.%d.%d.%d" % (f >> 2, (f >> 1) & 1, f & 1))
+    ks += ["Q.0.65535", "P.65535.0", "u.%d.%d.%s" % (r.choice([5, 127, 130, 138, 200, 255]), r.below(256), hx(r.bytes(4)))]
+    return ks
 
 
 def ext_shapes():
@@ -461,7 +529,9 @@ def transports(r, v6):
          "i6/u.%d.%d.%s" % (r.choice([1, 128, 135, 200, 255]), r.below(3), hx(r.bytes(4))),
          "i6/q.%d.%d" % (r.below(65536), r.below(65536)), "i6/p.%d.%d" % (r.below(65536), r.below(65536)),
          "i6/Q.7.8", "i6/P.9.10",
-         "r/253", "r/%d" % r.choice([17, 6, 1, 58, 59, 4, 41, 255])]
+         "r/253", "r/%d" % r.choice([17, 6, 1, 58, 59, 4, 41, 255]),
+         "i4/" + r.choice(icmp4_kinds(r)), "i4/" + r.choice(icmp4_kinds(r)),
+         "i6/" + r.choice(icmp6_kinds(r)), "i6/" + r.choice(icmp6_kinds(r))]
     el = r.choice(TCP_ELEMS)
     t.append("te/%d.%d.%d.0.2.%d.0.0/%s/%s" % (r.below(65536), r.below(65536), r.below(1 << 32), r.below(65536), el[1], el[0]))
     return t
@@ -488,16 +558,33 @@ def gen_cases(rng, tier):
                 add(l, v, "a/%d.%d.%d/%s/%s/%s/%s" % (rng.choice([1, 6, 65535]), rng.choice([2048, 34525, 0]), rng.choice([1, 2, 65535]),
                                                     hx(rng.bytes(hw)), hx(rng.bytes(pr)), hx(rng.bytes(hw)), hx(rng.bytes(pr))),
                     "r/0", "-")
-    # 2. every typed ICMP kind
-    for (l, v) in (LINKVLAN[0], LINKVLAN[3]):
-        for hb in ICMP4_TYPED:
-            for p in ("-", "g12.5", "g13.6"):
-                add(l, v, "4s/%s/%s/64" % (SRC4, DST4), "i4/x." + hb, p)
-                add(l, v, "6s/%s/%s/64" % (SRC6, DST6), "i4/x." + hb, p)
-        for hb in ICMP6_TYPED:
-            for p in ("-", "g12.5", "g33.6"):
-                add(l, v, "6s/%s/%s/64" % (SRC6, DST6), "i6/x." + hb, p)
-                add(l, v, "4s/%s/%s/64" % (SRC4, DST4), "i6/x." + hb, p)
+    # 2. every typed ICMP kind (boundary field values) through every link / VLAN / IP combination
+    pays = ["-", "07", "g12.5", "g13.6", "g33.7", "g2.9"]
+    j = 0
+    for (l, v) in LINKVLAN:
+        nets4 = ["4s/%s/%s/64" % (SRC4, DST4), rnd_v4h(rng, rng.choice([4, 8, 40]), True),
+                 "6s/%s/%s/64" % (SRC6, DST6), rnd_v6h(rng, shapes[rng.below(48)])]
+        nets6 = ["6s/%s/%s/64" % (SRC6, DST6), rnd_v6h(rng, shapes[rng.below(48)]), rnd_v6h(rng, shapes[rng.below(48)])]
+        for n in nets4:
+            for k in icmp4_kinds(rng):
+                j += 1
+                add(l, v, n, "i4/" + k, pays[j % len(pays)])
+                if k[0] == "t" and k[1] in "qp":
+                    # timestamp messages: the empty payload is the admitted one, 12 bytes is what a raw 13/0 admits
+                    add(l, v, n, "i4/" + k, "-")
+                    add(l, v, n, "i4/" + k, "g12.5")
+        for n in nets6:
+            for k in icmp6_kinds(rng):
+                j += 1
+                add(l, v, n, "i6/" + k, pays[j % len(pays)])
+        # refused: ICMPv6 in IPv4; fragmenting IPv4 header in front of a typed kind
+        add(l, v, "4s/%s/%s/64" % (SRC4, DST4), "i6/" + rng.choice(icmp6_kinds(rng)), "g5.1")
+        add(l, v, rnd_v4h(rng, 4, False, frag=True), "i4/" + rng.choice(icmp4_kinds(rng)), "g5.1")
+        add(l, v, rnd_v4h(rng, 0, False, frag=True), "i4/tq.1.2.3.4.5", "g5.1")
+        for t in ("i4/u.13.0.00010002", "i4/u.14.0.00010002"):
+            for p in ("-", "g11.1", "g12.1", "g13.1"):
+                add(l, v, "4s/%s/%s/64" % (SRC4, DST4), t, p)
+                add(l, v, "6s/%s/%s/64" % (SRC6, DST6), t, p)
     # 3. all 48 extension shapes x transports (+ raw numbers that are extension numbers)
     for k, x in enumerate(shapes):
         n = rnd_v6h(rng, x)
@@ -521,7 +608,8 @@ def gen_cases(rng, tier):
         st, _ = ref_build("n", "n", rnd_v6h(Rng0(), x), "r/253", b"")
         lim_nets.append((rnd_v6h(rng, x), 6, 0, len(_) - 40))
     lim_tr = [("u/7.9", 8), ("r/253", 0), ("ts/1.2.3.0.2.4.0.0/-", 20), ("th/1.2.3.4.511.5.6.7/" + "01" * 40, 60),
-              ("i4/q.1.2", 8), ("i6/q.1.2", 8), ("i4/u.13.0.00000000", 8)]
+              ("i4/q.1.2", 8), ("i6/q.1.2", 8), ("i4/u.13.0.00000000", 8), ("i4/tq.1.2.3.4.5", 20), ("i4/du.4.1500", 8),
+              ("i6/ra.64.1.0.1800", 8)]
     reps = 1 if not big else 4
     for (n, fam, ol, xl) in lim_nets:
         for (t, tl) in lim_tr:
@@ -690,12 +778,15 @@ def compare(ctx, cases, impl, model_lines):
             bump("link:" + l[0])
             bump("vlan:" + v.split("/")[0])
             bump("net:" + n.split("/")[0] + ("+x" if (n[:2] == "6h" and n.split("/")[4] != "-;-;-;-;-;-") or (n[:2] == "4h" and n.split("/")[5] != "-") else ""))
-            bump("tr:" + t.split("/")[0] + ("." + t.split("/")[1][0] if t[0] == "i" else ""))
+            bump("tr:" + t.split("/")[0] + ("." + t.split("/")[1].split(".")[0] if t[0] == "i" else ""))
             bump("plen:" + ("0" if plen == 0 else "1-9" if plen < 10 else "10-2000" if plen <= 2000 else ">60000" if plen > 60000 else "2001-60000"))
             bump("expect:" + st + (":" + want.split(":")[0] if st == "err" else ""))
             if st == "ok" and spec:
                 hasx = (n[:2] == "6h" and n.split("/")[4] != "-;-;-;-;-;-") or (n[:2] == "4h" and n.split("/")[5] != "-")
                 bump("parse_back_theorem:" + ("applies" if spec.get("exp", "-") != "-" else "payload-not-admitted") + ("+x" if hasx else ""))
+                for col in ("upto", "ts", "dec"):
+                    if spec.get(col, "-") != "-":
+                        bump("theorem_instance:" + col + ("+excluded" if spec.get("exp", "-") == "-" else ""))
             if (st == "ok" and _layers(l, v, n, t) >= 3 and plen > 0) or st == "err":
                 nontriv += 1
         for prof, lines in impl.items():
@@ -751,6 +842,15 @@ def compare(ctx, cases, impl, model_lines):
                 orc.append((i, "%s: crate parse '%s' differs from the wire reference '%s'" % (prof, parse[:200], spec["wire"][:200]), None))
             if spec.get("exp", "-") != "-" and parse != spec["exp"]:
                 orc.append((i, "%s: crate parse '%s' differs from the expected layout '%s'" % (prof, parse[:200], spec["exp"][:200]), None))
+            # instances of the round-3 theorems, evaluated by the runner on the extracted definitions
+            for col, thm in (("upto", "C10_parse_back_upto_transport"), ("ts", "C10_timestamp_wrong_size_rejected"),
+                             ("dec", "C10_icmp4/6_value_back")):
+                if spec.get(col) == "DIFF":
+                    orc.append((i, "%s: instance of %s does not hold on the extracted model" % (prof, thm), None))
+            if spec.get("dec") == "ok" and ex.get("crate") != "ok":
+                orc.append((i, "%s: model decoder recovers the configured ICMP type, the crate does not: %s" % (prof, ex.get("crate")), None))
+            if spec.get("ts") == "ok" and parse.startswith("ok"):
+                orc.append((i, "%s: timestamp message of the wrong size accepted by strict parsing" % prof, None))
             must_parse = (t[0] != "r") and admitted(n, t, plen)
             if must_parse:
                 if not parse.startswith("ok"):
@@ -762,6 +862,6 @@ def compare(ctx, cases, impl, model_lines):
     return {"corr_mismatch": corr, "oracle_fail": orc, "hist": hist, "nontrivial": nontriv,
             "samples": [cases[0], cases[len(cases) // 3], cases[len(cases) // 2], cases[-1]],
             "extra": {"model_covered_cases": modelled, "correspondence_only_cases": unmodelled,
-                      "model_covered": "all link/VLAN/IPv4(+options,+AH)/IPv6(+all extension shapes)/ARP paths, UDP, TCP, ICMP Unknown/EchoRequest/EchoReply, raw payload; errors and bytes left in the sink on error",
-                      "oracle_only": "typed ICMPv4/ICMPv6 kinds other than echo (tag x): RFC reference encoding, checksums, crate re-parse, three sinks",
-                      "theorem_family": "C10_size/C10_errors/C10_never_panic/C10_consistent_*/C10_checksums_verify/C10_next_protocol_fields: every modelled configuration; C10_parse_back: every modelled configuration with an admitted payload (extension headers included; exp= column = expected_x)"}}
+                      "model_covered": "all link/VLAN/IPv4(+options,+AH)/IPv6(+all extension shapes)/ARP paths, UDP, TCP, EVERY Icmpv4Type / Icmpv6Type variant (raw, echo helpers, destination unreachable x16 incl. next-hop MTU, redirect, time exceeded, parameter problem, 20-byte timestamps; ICMPv6 error kinds, packet too big, NDP kinds with flags), raw payload; errors and bytes left in the sink on error",
+                      "oracle_only": "nothing (the x.<bytes> tag is no longer generated)",
+                      "theorem_family": "C10_size/C10_errors/C10_never_panic/C10_consistent_*/C10_checksums_verify/C10_next_protocol_fields/C10_parse_back_upto_ip: every configuration; C10_parse_back: every configuration with an admitted payload (extension headers included; exp= column = expected_x); upto= / ts= / dec= columns: instances of C10_parse_back_upto_transport, C10_timestamp_wrong_size_rejected, C10_icmp4/6_value_back"}}
